@@ -212,7 +212,7 @@ pub fn run(ctx: &mut Ctx) {
 			n,
 			|| {
 				(
-					gen::arb_value(gen::ValueCfg::MEDIUM),
+					gen::arb_doc_value(gen::ValueCfg::MEDIUM),
 					gen::arb_choices(),
 					proptest::collection::vec(gen::arb_mutation(), 0..=3),
 				)
